@@ -32,6 +32,7 @@ func (f *Frame) instr(ins ssa.Instruction) {
 		f.zeroGhostFields(et, r)
 		if !escapes(x, map[ssa.Value]bool{}) {
 			f.private = append(f.private, l)
+			f.privateAllocs = append(f.privateAllocs, x)
 		}
 	case *ssa.BinOp:
 		f.binop(x)
@@ -592,6 +593,22 @@ func (f *Frame) mapUpdate(x *ssa.MapUpdate) {
 	v := f.get(x.Value).T
 	mt := x.Map.Type().Underlying().(*types.Map)
 	f.safety("nilmap", f.exprText(x.Map), fmt.Sprintf("(not (= %s 0))", m), x.Pos())
+	if e.con != nil && e.con.MapWrites != "" && !e.dry {
+		// write confinement for maps: the written map satisfies the declared predicate
+		env := f.specEnv(f.heap, nil, nil)
+		env.names["__m"] = specVal{v: Val{T: m}, t: x.Map.Type()}
+		if ex, err := parseSpecExpr(e.con.MapWrites + "(__m)"); err == nil {
+			if t, err := env.evalBool(ex); err == nil {
+				name := f.exprText(x.Map)
+				if !f.top {
+					name = "in:" + e.P.fnDisplay(f.fn) + ":" + name
+				}
+				e.addObl("mapwrite", name, f.curReach, t, x.Pos(), e.con.MapWrites+"(written map)", f.props())
+			} else {
+				e.unsupp("mapwrites: " + err.Error())
+			}
+		}
+	}
 	mv, dv, lv := e.S.mapVar(mt), e.S.mapDomVar(mt), e.S.mapLenVar()
 	curM, curD, curL := e.hget(f.heap, mv), e.hget(f.heap, dv), e.hget(f.heap, lv)
 	e.hset(f.heap, lv, fmt.Sprintf("(store %s %s (ite (select (select %s %s) %s) (select %s %s) (+ (select %s %s) 1)))", curL, m, curD, m, k, curL, m, curL, m))
@@ -783,8 +800,23 @@ func (f *Frame) bindResults(env *SpecEnv, fn *ssa.Function, vals []Val) {
 func (f *Frame) allowedLocs() (map[string][]*Loc, bool) {
 	e := f.e
 	c := e.con
-	if c != nil && c.ModAll && len(c.Preserves) > 0 {
-		return map[string][]*Loc{}, true
+	if c != nil && c.ModAll && (len(c.Preserves) > 0 || len(c.FieldsOf) > 0) {
+		allowed := map[string][]*Loc{}
+		env := f.specEnv(f.entry, nil, nil)
+		for _, fc := range c.FieldsOf {
+			v, vt, err := env.eval(fc.Expr)
+			pt, ok := vt.Underlying().(*types.Pointer)
+			if err != nil || !ok {
+				continue
+			}
+			if _, st := structKey(pt.Elem()); st != nil {
+				for i := 0; i < st.NumFields(); i++ {
+					hv := e.S.fieldVar(pt.Elem(), i)
+					allowed[hv] = append(allowed[hv], &Loc{Kind: locField, T: st.Field(i).Type(), Parent: &Loc{Kind: locCell, T: pt.Elem(), Ptr: v.T}, Field: i})
+				}
+			}
+		}
+		return allowed, true
 	}
 	if c == nil || c.ModAll || (len(c.Modifies) == 0 && !c.Pure) {
 		return nil, false
@@ -808,6 +840,18 @@ func (f *Frame) allowedLocs() (map[string][]*Loc, bool) {
 // that existed at function entry, except at the allowed locations.
 func (f *Frame) frameCond(hv, now, before string, locs []*Loc) string {
 	e := f.e
+	// a merged heap value: prove the frame for each alternative under its edge
+	// condition instead of through one big if-then-else term
+	if mi, ok := e.mergeOf[now]; ok && len(mi.terms) > 1 {
+		var parts []string
+		for i, t := range mi.terms {
+			if t == before {
+				continue
+			}
+			parts = append(parts, fmt.Sprintf("(=> %s %s)", mi.conds[i], f.frameCond(hv, t, before, locs)))
+		}
+		return and(parts...)
+	}
 	so := e.S.heapSort[hv]
 	if !strings.HasPrefix(so, "(Array Int ") {
 		if len(locs) > 0 {
@@ -820,15 +864,42 @@ func (f *Frame) frameCond(hv, now, before string, locs []*Loc) string {
 		switch {
 		case l.Kind == locField && l.Parent.Kind == locCell:
 			except = append(except, fmt.Sprintf("(= r %s)", l.Parent.Ptr))
-		case l.Kind == locCell, l.Kind == locGField:
+		case l.Kind == locCell, l.Kind == locGField, l.Kind == locMapAll:
 			except = append(except, fmt.Sprintf("(= r %s)", l.Ptr))
-		case l.Kind == locElem:
+		case l.Kind == locElem, l.Kind == locElemAll:
 			except = append(except, fmt.Sprintf("(= r %s)", l.Base))
 		default:
 			except = append(except, "true")
 		}
 	}
 	return fmt.Sprintf("(forall ((r Int)) (=> (and (> r 0) (< r %s) (not %s)) (= (select %s r) (select %s r))))", e.hget(f.entry, "$alloc"), or(except...), now, before)
+}
+
+// frameDef: like frameCond, but as a definition of `now` (lambda), used where
+// the frame is assumed (loop headers): selects on it reduce by beta reduction.
+func (f *Frame) frameDef(hv, now, before string, locs []*Loc) string {
+	e := f.e
+	so := e.S.heapSort[hv]
+	if !strings.HasPrefix(so, "(Array Int ") {
+		if len(locs) > 0 {
+			return "true"
+		}
+		return fmt.Sprintf("(= %s %s)", now, before)
+	}
+	var except []string
+	for _, l := range locs {
+		switch {
+		case l.Kind == locField && l.Parent.Kind == locCell:
+			except = append(except, fmt.Sprintf("(= r %s)", l.Parent.Ptr))
+		case l.Kind == locCell, l.Kind == locGField, l.Kind == locMapAll:
+			except = append(except, fmt.Sprintf("(= r %s)", l.Ptr))
+		case l.Kind == locElem, l.Kind == locElemAll:
+			except = append(except, fmt.Sprintf("(= r %s)", l.Base))
+		default:
+			except = append(except, "true")
+		}
+	}
+	return fmt.Sprintf("(= %s (lambda ((r Int)) (ite (and (> r 0) (< r %s) (not %s)) (select %s r) (select %s r))))", now, e.hget(f.entry, "$alloc"), or(except...), before, e.freshLike(hv))
 }
 
 func frameExempt(hv string) bool {
@@ -843,14 +914,35 @@ func (f *Frame) framedVar(hv string) bool {
 	}
 	c := f.e.con
 	if c != nil && c.ModAll {
-		for _, p := range c.Preserves {
-			if p == hv {
-				return true
+		if matchPreserves(c.Preserves, hv) {
+			return true
+		}
+		for _, fc := range c.FieldsOf {
+			env := f.specEnv(f.entry, nil, nil)
+			if _, vt, err := env.eval(fc.Expr); err == nil {
+				if pt, ok := vt.Underlying().(*types.Pointer); ok {
+					if key, st := structKey(pt.Elem()); st != nil && strings.HasPrefix(hv, "F!"+key+"!") {
+						return true
+					}
+				}
 			}
 		}
 		return false
 	}
 	return true
+}
+
+// matchPreserves: heap variable names or prefix patterns ending in '*'.
+func matchPreserves(pats []string, hv string) bool {
+	for _, p := range pats {
+		if p == hv {
+			return true
+		}
+		if strings.HasSuffix(p, "*") && strings.HasPrefix(hv, strings.TrimSuffix(p, "*")) {
+			return true
+		}
+	}
+	return false
 }
 
 // checkFrame: when the contract declares `modifies`, every heap variable not
@@ -867,6 +959,7 @@ func (f *Frame) checkFrame(pos token.Pos) {
 		names = append(names, hv)
 	}
 	sortStrings(names)
+	var gn, gc []string
 	for _, hv := range names {
 		if !f.framedVar(hv) {
 			continue
@@ -875,8 +968,10 @@ func (f *Frame) checkFrame(pos token.Pos) {
 		if now == before {
 			continue
 		}
-		e.addObl("frame", hv, f.curReach, f.frameCond(hv, now, before, allowed[hv]), pos, "unchanged outside modifies", f.props())
+		gn = append(gn, hv)
+		gc = append(gc, f.frameCond(hv, now, before, allowed[hv]))
 	}
+	e.addGroup("frame", "all", f.curReach, gn, gc, pos, "unchanged outside modifies", f.props())
 }
 
 func (c *Contract) pureDeclared() bool { return false }
